@@ -33,6 +33,7 @@ func acceptedWorkload(c *fw.Ctx, scale int, emit emitFn) {
 	schemas := []string{
 		`{"id": 1}`, `{"id": "a"}`, `{"id": 1 // {min: 5}` + "\n}", `{"id": "abc" // {minLength: 10}` + "\n}", `{"id": @t}`, `{"id": @undefined}`,
 		`{"id": 1 // {type: "@t"}` + "\n}", `{"id": 1 // {type: "@undefined"}` + "\n}", `{"id": "x" // {enum: @e}` + "\n}", `{"id": "x" // {enum: @undefinedEnum}` + "\n}",
+		`{ // {allOf: "@base"}` + "\n}", `{ // {allOf: "@d"}` + "\n  \"more\": true\n}", `@d`, `{"w": @t|@u}`, `@t|@u`,
 		`{"id": 1, "x": 2}`, `{}`, `[]`, `[1,2]`, `1`, `"s"`, `null`, `true`, `@t`, `[@t]`, `@t | @u`, `@undefined`, `{ // {allOf: "@t"}` + "\n}", `{ // {allOf: "@undefined"}` + "\n}",
 		`{"a": 1 // {or: ["@t", "@u"]}` + "\n}", `{"a": 1 // {or: [{type: "integer"}, {type: "string"}]}` + "\n}", `{"a": {"b": [1, "x", {"c": null}]}}`,
 		`# only a comment`, `{ # c` + "\n}", `{"id": 1 // {nullable: true}` + "\n}", `{"id": 1 // {optional: true}` + "\n}", `{"id": 1.5 // {precision: 1}` + "\n}",
@@ -44,6 +45,8 @@ func acceptedWorkload(c *fw.Ctx, scale int, emit emitFn) {
 	regexes := []string{`/abc/`, `/[a-z]+/`, `/(/`, `/[a-z]\x95/`, `//`, `/a{2,1}/`, `/\d+/`, `/(?=a)/`, `/a/ `, `/\//`, `/[/`, "/a\nb/", `/(?P<n>a)/`}
 	types := []string{"", "TYPE @t\n{\"k\": 1}\n", "TYPE @t\n{\"k\": 1}\nTYPE @u\n{\"m\": \"s\"}\n", "TYPE @t regex\n/ab+/\n", "TYPE @t any\n", "TYPE @t empty\n",
 		"TYPE @t\n1\n", "TYPE @t\n{\"k\": @u}\nTYPE @u\n{\"l\": @t // {optional: true}\n}\n", "TYPE @t\n[1]\n", "TYPE @t\n\"s\" // {enum: @e}\nENUM @e\n[\"s\", \"t\"]\n",
+		"TYPE @t\n{\"k\": 1}\nTYPE @u\n{\"m\": \"s\"}\nTYPE @base\n{\n  \"x\": @t|@u,\n  \"y\": @t  |  @u,\n  \"z\": @u |@t\n}\nTYPE @d\n{ // {allOf: \"@base\"}\n  \"own\": 1\n}\n",
+		"TYPE @t\n{\"k\": 1}\nTYPE @u\n[1]\nTYPE @base\n{\n  \"x\": @t| @u // {optional: true}\n}\n",
 		"ENUM @e\n[\"x\", \"y\"]\n", "ENUM @e\n[1, 2 // two\n]\n", "TYPE @t\n{\"k\": 1}\nENUM @e\n[\"x\"]\nTYPE @u\n{\"p\": @t}\n"}
 	pick := func(ss []string) string { return ss[r.Intn(len(ss))] }
 	sch := func() string {
